@@ -28,7 +28,8 @@ def check(k, seed):
     uptos = ['raw_data', 'slices', 'groups', 'layers']
     combos = [(u, sc) for u in uptos for sc in (False, True)]
     if k % 4:
-        combos = combos[(k % 4)::3]      # a rotating subset per scene keeps the quick tier quick
+        # a rotating subset per scene keeps the quick tier quick; the raw-data panel (which draws every hit type) is always included
+        combos = [('raw_data', False), ('raw_data', True)] + [c for c in combos[(k % 4)::3] if c[0] != 'raw_data']
     for upto, show_ceilos in combos:
         rc0 = dict(matplotlib.rcParams)
         fmts = ['png'] if k % 2 else ['png', 'pdf']
